@@ -8,9 +8,21 @@ package server
 // in-process session of verif_lex.go.
 
 import (
+	"github.com/XiaoMi/Gaea/models"
 	"github.com/XiaoMi/Gaea/mysql"
 	"github.com/XiaoMi/Gaea/util"
 )
+
+// VerifC21NewShardedSession is VerifLexNewSession for a namespace that has one
+// shard rule (table db1.tbl_shard, hash on id, two sub-tables on the only
+// slice): statements the fast path does not take are planned from the tree the
+// parser builds, not forwarded as text.
+func VerifC21NewShardedSession(readOnly, rwSplit, multiStmts bool) *VerifLexSession {
+	cfg := verifLexNamespaceConfig(readOnly, rwSplit, multiStmts)
+	cfg.ShardRules = []*models.Shard{{DB: verifLexDB, Table: "tbl_shard", Type: "hash", Key: "id",
+		Locations: []int{2}, Slices: []string{verifLexSlice}}}
+	return verifLexNewSessionOf(cfg)
+}
 
 // StmtPrepare runs se.handleStmtPrepare(sql) (COM_STMT_PREPARE without writing
 // the response) and returns the id and the number of parameters of the new
